@@ -221,3 +221,8 @@ Definition capped_cs (n : nat) (p : option nat) : nat :=
 (* a pass of logged requests against the parameter value *)
 Definition c18_param_case (n : nat) (p : option nat) (passes : nat) (log : list (list (nat * nat))) : nat :=
   c18_case n (capped_cs n p) passes log.
+
+(* inputs too long for unary numbers (a 16-bit chunk size needs more than 65535 records): input length and chunk size
+   are multiples of k, the requests of the model are then the k-fold of those for n/k and cs/k
+   (Proofs/ChunksBufP.v:slices_scale), and the harness hands over the logged requests divided by k *)
+Definition scale_slice (k : nat) (se : nat * nat) : nat * nat := (k * fst se, k * snd se).
